@@ -497,6 +497,9 @@ impl World {
         let plain = self.plain;
         let entry = if plain { "handle_incoming_packet" } else { "handle_incoming_packet_with_session" };
         *o.kinds.entry(format!("entry {entry}")).or_insert(0) += 1;
+        if peer_before.is_some_and(|p| !self.unexpired(p)) {
+            *o.kinds.entry(format!("entry {entry}: tunnel exists, peer not authorised")).or_insert(0) += 1;
+        }
         // both entry points as (payload handed to the caller = the SCION side, any other tunnel result)
         let res: Result<(Option<Vec<u8>>, Option<TunnResult>), String> = if plain {
             catch(|| self.server.handle_incoming_packet(Packet::copy_from(bytes), addr(a), &mut q)).map(|r| match r {
@@ -758,6 +761,10 @@ impl World {
                 let plain = self.plain;
                 let (entry, tag) = if plain { ("handle_outgoing_packet", "outp") } else { ("handle_outgoing_packet_with_session", "out") };
                 *o.kinds.entry(format!("entry {entry}")).or_insert(0) += 1;
+                if peer.is_some() && !authorised {
+                    // the situation the property is about: WireGuard state persists, the registration does not
+                    *o.kinds.entry(format!("entry {entry}: tunnel exists, peer not authorised")).or_insert(0) += 1;
+                }
                 let t0 = Instant::now();
                 // both entry points as: None = refused / nothing; Some(p) = the payload was accepted into the tunnel
                 // (_with_session: `Some`, p = network_packet) or the wrapper returned the packet p to send to the client
